@@ -26,9 +26,16 @@ type schedReader struct {
 	eofWithData bool
 	failRead    int // -1 = never
 	calls       int
+	ends        []int // cumulative number of bytes handed out after each Read call (0-byte calls included)
+	total       int
 }
 
-func (r *schedReader) Read(p []byte) (int, error) {
+func (r *schedReader) Read(p []byte) (n int, err error) {
+	defer func() { r.total += n; r.ends = append(r.ends, r.total) }()
+	return r.read(p)
+}
+
+func (r *schedReader) read(p []byte) (int, error) {
 	r.calls++
 	if r.failRead == 0 {
 		return 0, errInjected
@@ -71,14 +78,16 @@ func rollHash(b []byte) uint32 {
 }
 
 type cbRec struct {
-	start  uint32
-	isInit bool
-	data   []byte
+	start     uint32
+	isInit    bool
+	data      []byte
+	callsAtCb int // Read calls made when the callback ran
 }
 
 type parseOut struct {
-	kind string
-	cbs  []cbRec
+	kind     string
+	cbs      []cbRec
+	readEnds []int
 }
 
 func (p parseOut) String() string {
@@ -118,7 +127,7 @@ func runParse(input []byte, sched []int, eofWithData bool, failRead, failCb int,
 		var cbs []cbRec
 		nCb := 0
 		cb := func(cd chunkparser.ChunkData) error {
-			cbs = append(cbs, cbRec{cd.Start, cd.IsInitSegment, append([]byte(nil), cd.Data...)})
+			cbs = append(cbs, cbRec{cd.Start, cd.IsInitSegment, append([]byte(nil), cd.Data...), len(rd.ends)})
 			nCb++
 			if failCb >= 0 && nCb-1 == failCb {
 				return errInjected
@@ -146,7 +155,7 @@ func runParse(input []byte, sched []int, eofWithData bool, failRead, failCb int,
 		default:
 			kind = "err:" + strings.ReplaceAll(err.Error(), " ", "_")
 		}
-		done <- parseOut{kind: kind, cbs: cbs}
+		done <- parseOut{kind: kind, cbs: cbs, readEnds: rd.ends}
 	}()
 	select {
 	case r := <-done:
@@ -269,12 +278,12 @@ func expectedCbs(stream []byte, boxes []boxInfo, trailing int) []cbRec {
 		}
 		if b.typ == "mdat" {
 			end := b.off + b.size
-			cbs = append(cbs, cbRec{uint32(start), isInit, stream[start:end]})
+			cbs = append(cbs, cbRec{start: uint32(start), isInit: isInit, data: stream[start:end]})
 			start = end
 		}
 	}
 	if start < len(stream) {
-		cbs = append(cbs, cbRec{uint32(start), isInit, stream[start:]})
+		cbs = append(cbs, cbRec{start: uint32(start), isInit: isInit, data: stream[start:]})
 	}
 	return cbs
 }
@@ -421,14 +430,41 @@ func genC18(c *Ctx) {
 			exp := expectedCbs(stream, boxes, trailing)
 			if res.kind != "done" || !sameCbs(exp, res.cbs) {
 				c.Violate("boundaries", "callbacks of a well-formed stream are not at the mdat ends / init flag wrong",
-					[]string{line}, map[string]string{"expected": parseOut{"done", exp}.String(), "got": res.String()})
+					[]string{line}, map[string]string{"expected": parseOut{kind: "done", cbs: exp}.String(), "got": res.String()})
+			}
+		}
+		// delivered as soon as complete: the callback for a chunk runs before the parser asks the reader for anything more
+		// (a live sender blocks there until the next chunk exists)
+		if res.kind == "done" && fr == "-" && fc == "-" && wellFormed {
+			for ci, cb := range res.cbs {
+				end := int(cb.start) + len(cb.data)
+				// (only chunks that end with a media-data box with payload: trailing bytes are delivered at EOF, and a
+				// media-data box of 8 bytes is complete with its header)
+				realMdat := false
+				for _, b := range boxes {
+					if b.typ == "mdat" && b.off+b.size == end && b.size > 8 {
+						realMdat = true
+					}
+				}
+				if !realMdat {
+					continue
+				}
+				j := 0
+				for j < len(res.readEnds) && res.readEnds[j] < end {
+					j++
+				}
+				if j < len(res.readEnds) && cb.callsAtCb > j+1 {
+					c.Violate("callback-late", fmt.Sprintf("chunk %d (bytes %d..%d) was complete after Read call %d, but its callback ran only after %d calls: the parser asked for more data first", ci, cb.start, end, j+1, cb.callsAtCb),
+						[]string{line}, nil)
+					break
+				}
 			}
 		}
 		// schedule/buffer independence (relational): same stream, other schedule, EOF style and buffer size
 		if fr == "-" && fc == "-" && i%3 == 0 {
 			sched2, _ := c18Sched(r, len(stream), boxes)
 			line2 := fmt.Sprintf("parse %s %s %d - -", hx, sched2, 1-eof)
-			res2 := runParseFromLine(line2, r.Pick(0, 4, 1024, len(stream), -16, -1024, -(len(stream)/2 + 1), -100))
+			res2 := runParseFromLine(line2, r.Pick(0, 4, 1024, len(stream), -16, -1024, -(len(stream)/2+1), -100))
 			if res2.kind == res.kind && res.kind == "done" && !sameCbs(res.cbs, res2.cbs) {
 				if !endsWithTinyMoov(stream) {
 					c.Violate("sched-dependent", "callbacks depend on the read schedule / EOF style / buffer size",
